@@ -77,6 +77,8 @@ type Obs struct {
 	Events         []faketc.Event
 	Journal        []memdb.Entry
 	MidJournalLen  int
+	StepMarks      []int // journal length before each step; one more entry after the last step / local commit
+	Srv            *memdb.Server
 }
 
 type execer interface {
@@ -111,7 +113,14 @@ func RunProgram(ctx context.Context, db *sql.DB, p gen.Program, o *Obs) error {
 		}
 		return nil
 	}
+	mark := func() {
+		if o.Srv != nil {
+			o.StepMarks = append(o.StepMarks, o.Srv.JournalLen())
+		}
+	}
+	defer mark()
 	for _, st := range p.Steps {
+		mark()
 		if st.Group != cur {
 			if err := endTx(); err != nil {
 				return err
@@ -164,7 +173,7 @@ func RunProgram(ctx context.Context, db *sql.DB, p gen.Program, o *Obs) error {
 // RunGlobal runs p inside tm.WithGlobalTx; outcome "rollback" makes the business fail after the last
 // statement, "commit" lets it succeed. Phase two is driven explicitly afterwards (between, if set, runs first).
 func RunGlobal(e *sys.Env, p gen.Program, outcome string, between func()) *Obs {
-	o := &Obs{Pre: e.Srv.Snapshot()}
+	o := &Obs{Pre: e.Srv.Snapshot(), Srv: e.Srv}
 	var gtxErr error
 	func() {
 		defer func() {
